@@ -413,3 +413,132 @@ def self_method_called(c: ast.Call) -> T.Optional[str]:
     if ch and ch.startswith('self.') and ch.count('.') == 1:
         return ch.split('.')[1]
     return None
+
+
+# -- helper inlining (extract-method refactorings) ------------------------------------------------
+
+class _Rename(ast.NodeTransformer):
+    def __init__(self, m: T.Dict[str, str]):
+        self.m = m
+
+    def visit_Name(self, n: ast.Name) -> ast.AST:
+        return ast.copy_location(ast.Name(id=self.m[n.id], ctx=n.ctx), n) if n.id in self.m else n
+
+
+def _bind_args(callee: ast.FunctionDef, call: ast.Call, ren: T.Dict[str, str]) -> T.Optional[T.List[ast.stmt]]:
+    a = callee.args
+    if a.vararg or a.kwarg or a.posonlyargs or any(isinstance(x, ast.Starred) for x in call.args) or any(k.arg is None for k in call.keywords):
+        return None
+    params = [p.arg for p in a.args]
+    if not params or params[0] != 'self':
+        return None
+    params = params[1:]
+    defaults: T.Dict[str, ast.AST] = dict(zip(reversed(params), reversed(a.defaults))) if a.defaults else {}
+    for p, d in zip(a.kwonlyargs, a.kw_defaults):
+        params.append(p.arg)
+        if d is not None:
+            defaults[p.arg] = d
+    given: T.Dict[str, ast.AST] = {}
+    if len(call.args) > len(a.args) - 1:
+        return None
+    for p, v in zip(params, call.args):
+        given[p] = v
+    for k in call.keywords:
+        if k.arg not in params or k.arg in given:
+            return None
+        given[T.cast(str, k.arg)] = k.value
+    out: T.List[ast.stmt] = []
+    for p in params:
+        v = given.get(p, defaults.get(p))
+        if v is None:
+            return None
+        out.append(ast.copy_location(ast.Assign(targets=[ast.Name(id=ren[p], ctx=ast.Store())], value=v, lineno=call.lineno), call))
+    return out
+
+
+def inline_helpers(fn: ast.FunctionDef, methods: T.Dict[str, T.Any], vocab: T.Iterable[str], depth: int = 2) -> ast.FunctionDef:
+    """Copy of `fn` in which calls of *new* private helpers of the same class (`self.h(...)`, h not in the vocabulary the
+    reference is written in) are expanded in place when that is meaning-preserving by construction:
+    `self.h(..)` as a statement (h has no valued return), `return self.h(..)` (tail call), `x = self.h(..)` (h has one,
+    final, return).  Parameters and locals of h are renamed apart and bound by plain assignments, so the path-local
+    naming resolves them like any other local."""
+    vocab = set(vocab)
+    counter = [0]
+
+    def eligible(c: ast.AST) -> T.Optional[ast.FunctionDef]:
+        if not isinstance(c, ast.Call):
+            return None
+        m = self_method_called(c)
+        if not m or m in vocab or m == fn.name or m not in methods:
+            return None
+        callee = methods[m]
+        if any(isinstance(n, (ast.Yield, ast.YieldFrom, ast.Await, ast.Global, ast.Nonlocal)) for n in ast.walk(callee)):
+            return None
+        return callee
+
+    def expand(callee: ast.FunctionDef, call: ast.Call, mode: str, d: int) -> T.Optional[T.Tuple[T.List[ast.stmt], T.Optional[ast.AST]]]:
+        body = [s for s in callee.body if not (isinstance(s, ast.Expr) and isinstance(s.value, ast.Constant))] or [ast.Pass()]
+        rets = [n for s in body for n in walk_no_nested(s) if isinstance(n, ast.Return)]
+        result: T.Optional[ast.AST] = None
+        if mode == 'stmt':
+            if any(r.value is not None and not (isinstance(r.value, ast.Constant) and r.value.value is None) for r in rets):
+                return None
+            if rets and not (len(rets) == 1 and rets[0] is body[-1]):
+                return None
+            if rets:
+                body = body[:-1] or [ast.Pass()]
+        elif mode == 'assign':
+            if not (len(rets) == 1 and rets[0] is body[-1] and rets[0].value is not None):
+                return None
+        counter[0] += 1
+        names = {a.arg for a in callee.args.args + callee.args.kwonlyargs if a.arg != 'self'}
+        names |= {n.id for s in body for n in ast.walk(s) if isinstance(n, ast.Name) and isinstance(n.ctx, (ast.Store, ast.Del))}
+        ren = {n: f'_{callee.name.strip("_")}{counter[0]}_{n}' for n in names}
+        binds = _bind_args(callee, call, ren)
+        if binds is None:
+            return None
+        new = [_Rename(ren).visit(copy.deepcopy(s)) for s in body]
+        if mode == 'assign':
+            result = new[-1].value
+            new = new[:-1]
+        elif mode == 'return' and not isinstance(new[-1], (ast.Return, ast.Raise)):
+            new.append(ast.copy_location(ast.Return(value=None), call))
+        return binds + block(new, d - 1), result
+
+    def block(stmts: T.List[ast.stmt], d: int) -> T.List[ast.stmt]:
+        out: T.List[ast.stmt] = []
+        for st in stmts:
+            done = False
+            if d > 0:
+                if isinstance(st, ast.Expr) and eligible(st.value):
+                    r = expand(eligible(st.value), st.value, 'stmt', d)  # type: ignore[arg-type]
+                    if r:
+                        out.extend(r[0])
+                        done = True
+                elif isinstance(st, ast.Return) and st.value is not None and eligible(st.value):
+                    r = expand(eligible(st.value), st.value, 'return', d)  # type: ignore[arg-type]
+                    if r:
+                        out.extend(r[0])
+                        done = True
+                elif isinstance(st, (ast.Assign, ast.AnnAssign)) and st.value is not None and eligible(st.value):
+                    r = expand(eligible(st.value), st.value, 'assign', d)  # type: ignore[arg-type]
+                    if r:
+                        out.extend(r[0])
+                        st2 = copy.copy(st)
+                        st2.value = r[1]  # type: ignore[assignment]
+                        out.append(st2)
+                        done = True
+            if done:
+                continue
+            for field in ('body', 'orelse', 'finalbody'):
+                sub = getattr(st, field, None)
+                if isinstance(sub, list) and sub and isinstance(sub[0], ast.stmt) and not isinstance(st, (ast.FunctionDef, ast.AsyncFunctionDef, ast.ClassDef)):
+                    setattr(st, field, block(sub, d))
+            for h in getattr(st, 'handlers', []):
+                h.body = block(h.body, d)
+            out.append(st)
+        return out
+
+    new_fn = copy.deepcopy(fn)
+    new_fn.body = block(new_fn.body, depth)
+    return ast.fix_missing_locations(new_fn)
